@@ -166,6 +166,23 @@ func (ps *ProcessSet) run(ctx context.Context) {
 			ps.tracer.Send(CeaseProcessSetTrace{Definitions: ps.definitions})
 			return
 		case <-ctx.Done():
+			// throws that were counted into the wait group but will not be
+			// handled any more must not keep the waiters' goroutines
+			ps.dropThrows()
+			return
+		}
+	}
+}
+
+// dropThrows releases the wait group for every throw still queued
+func (ps *ProcessSet) dropThrows() {
+	for {
+		select {
+		case ch := <-ps.mch:
+			if _, ok := ch.(throwMessage); ok {
+				ps.wg.Done()
+			}
+		default:
 			return
 		}
 	}
@@ -245,7 +262,16 @@ LOOP:
 				if ok {
 					// counted until handleThrow is through with it
 					ps.wg.Add(1)
-					ps.mch <- throwMessage{Id: *eventId}
+					select {
+					case ps.mch <- throwMessage{Id: *eventId}:
+						if ctx.Err() != nil {
+							// the run loop may have ended (and emptied
+							// the queue) before this throw was queued
+							ps.dropThrows()
+						}
+					case <-ctx.Done():
+						ps.wg.Done()
+					}
 				}
 			}
 		case ActiveListeningTrace:
